@@ -28,6 +28,7 @@ type ecEnv struct {
 
 	mu    sync.Mutex
 	seenR map[string]string // r -> message (nonce reuse across different messages)
+	other *ecKey            // a second key, for the negative companion of every honest case
 }
 
 type ecKey struct {
@@ -131,6 +132,9 @@ func runECDSA(c *mon.Ctx, d *sigs.ECDSA) {
 		c.Class(N + "/key/deserialised/" + cr.cls)
 	}
 
+	if len(keys) > 1 {
+		e.other = &keys[1]
+	}
 	// ---------- honest signatures ----------
 	type triple struct {
 		k   ecKey
@@ -446,6 +450,11 @@ func (e *ecEnv) signCase(k ecKey, h hcfg, m msgCase, dirty bool) []byte {
 		c.Check("Signature.Bytes", N+"/Signature.Bytes/round-trip", bytes.Equal(e.d.SigBytes(rb, sb), sig), desc)
 	}
 	c.SampleOnce(N, map[string]any{"instance": N, "key": k.label, "hash": h.name, "msg_class": m.cls, "signature": hx(sig), "oracle": "equation-holds"})
+	// negative companions of every honest case: one signature bit flipped, and the same signature under another key
+	e.decide("companion/sig-bit-flip", k.pk, flipBit(sig, (int(sig[0])<<8|int(sig[1]))%(8*len(sig))), m.m, h)
+	if e.other != nil && e.other.label != k.label {
+		e.decide("companion/other-key", e.other.pk, sig, m.m, h)
+	}
 	return sig
 }
 
